@@ -3,6 +3,7 @@
   strand / frame components and a remainder.
 -/
 import BioCantor.Proofs.DigInject
+set_option linter.unusedSimpArgs false
 namespace BioCantor.Proofs.Dig
 open BioCantor BioCantor.Spec.Digest BioCantor.Model.Digest
 open BioCantor.Spec.Qual (Str strLt strLe)
